@@ -53,7 +53,7 @@ try:
             dst = os.path.join(wt, dest); os.makedirs(os.path.dirname(dst), exist_ok=True); shutil.copy(os.path.join(d, rel), dst)
             placed.append(dest)
     run = meta["demo"]["run"]
-    for old in ("/tmp/seed/wt2-%s" % meta["property"], "/tmp/seed/wt-%s" % meta["property"], "<worktree>", "<your-worktree>", "<repo>", "<WORKTREE>", "$WT", "${WT}", "<wt>", "<WT>", "<worktree-dir>"):
+    for old in ("/tmp/seed/wt3-%s" % meta["property"], "/tmp/seed/wt2-%s" % meta["property"], "/tmp/seed/wt-%s" % meta["property"], "<worktree>", "<your-worktree>", "<repo>", "<WORKTREE>", "$WT", "${WT}", "<wt>", "<WT>", "<worktree-dir>"):
         run = run.replace(old, wt)
     need_overlay = ".pb/overlay.json" in run or "-overlay" in run
     put_demos()
